@@ -4,7 +4,7 @@ From Coq Require Import List NArith Bool Permutation.
 From Scalibr Require Import Formats.Lines Formats.Apk Formats.ApkProofs Formats.Gradle Formats.GradleProofs
   Formats.Gemfile Formats.GemfileProofs Formats.Dpkg Formats.DpkgProofs
   Formats.Structs Formats.StructsProofs Formats.Structs2 Formats.Structs2Proofs
-  Formats.Requirements Formats.RequirementsProofs.
+  Formats.Requirements Formats.RequirementsProofs Formats.GoModBytes Formats.GoModBytesProofs.
 Import ListNotations.
 Open Scope N_scope.
 
@@ -269,3 +269,41 @@ Proof. vm_compute. reflexivity. Qed.
 Example gomod_example_run :
   extract_gomod (struct_of_gomod ex_gomod) = Ok [([120], [57]); ([46;46;47;108], []); ([99], [51]); ([115;116;100;108;105;98], [49;46;50;50;46;51])].
 Proof. vm_compute. reflexivity. Qed.
+
+(* ------------------------------------------------------------------ go.mod from bytes *)
+(* The line-oriented sub-grammar of golang.org/x/mod/modfile (lexer: blanks, CR, two-slash comments anywhere,
+   identifiers, parentheses; statements: single lines and "verb ( ... )" blocks with blank / comment lines
+   inside) composed with the extractor loop: a document listing module / go / toolchain / require / replace
+   directives (and ignored ones: exclude, retract, godebug, tool) in ANY order, split into any single lines and
+   blocks, any indentation and spacing, end-of-line comments, CRLF or LF, final newline or not, yields exactly
+   expected_gomod of the directives it lists.  Token validation by modfile (module path syntax, semantic
+   versions, go / toolchain version syntax) is the oracle table orc: wf_gm_doc requires it to accept every
+   directive of the document.  What stays structure-level: nothing for go.mod; quoted strings and other
+   syntax outside the sub-grammar are reported as "not modelled" by the model and are outside this theorem. *)
+Theorem gomod_bytes_roundtrip : forall orc d,
+  wf_gm_doc orc d = true -> wf_gomod (recs_of_dirs (doc_dirs d)) = true ->
+  parse_gomod_bytes orc (render_gomod_doc d) = Ok (expected_gomod_doc d).
+Proof. exact gomod_bytes_roundtrip_lemma. Qed.
+Print Assumptions gomod_bytes_roundtrip.
+
+Definition ex_lay (lead : bytes) (c : option (bytes * bytes)) (e : eol) : tl_lay :=
+  {| tl_lead := lead; tl_seps := []; tl_comment := c; tl_trail := []; tl_eol := e |}.
+Definition ex_gm_doc : gm_doc :=
+  {| gd_items := [ GNoise (GNComment [] [32;104;105]) LF;
+                   GLine (DModule [109]) (ex_lay [] None CRLF);
+                   GBlock v_require (ex_lay [] None LF)
+                     [ BDir (DRequire [97;47;98] [49;46;50;46;51]) (ex_lay [9] (Some ([32], [32;105;110;100;105;114;101;99;116])) LF);
+                       BNoise (GNBlank []) LF;
+                       BDir (DRequire [99] [48;46;49;46;48]) (ex_lay [9] None CRLF) ]
+                     (ex_lay [] None LF);
+                   GLine (DGo [49;46;50;49]) (ex_lay [32] None LF);
+                   GLine (DReplace {| rr_old := [99]; rr_oldv := []; rr_new := [46;46;47;120]; rr_newv := [] |}) (ex_lay [] None LF) ];
+     gd_final_nl := false |}.
+Definition ex_gm_orc : gm_oracle :=
+  [ ([v_module; [109]], true); ([v_require; [97;47;98]; [118;49;46;50;46;51]], true); ([v_require; [99]; [118;48;46;49;46;48]], true);
+    ([v_go; [49;46;50;49]], true); ([v_replace; [99]; s_arrow; [46;46;47;120]], true) ].
+Example gomod_bytes_example :
+  wf_gm_doc ex_gm_orc ex_gm_doc && wf_gomod (recs_of_dirs (doc_dirs ex_gm_doc)) = true /\
+  parse_gomod_bytes ex_gm_orc (render_gomod_doc ex_gm_doc) =
+    Ok [([97;47;98], [49;46;50;46;51]); ([46;46;47;120], []); (s_stdlib, [49;46;50;49])].
+Proof. vm_compute. split; reflexivity. Qed.
